@@ -414,6 +414,9 @@ class MapDriver(hist.Driver):
                          ["fit", i, {"model_key": "hertz_cone"}],
                          ["fit", i, {"model_key": "hertz_para",
                                      "gcf_k": 0.5}],
+                         ["fit", i, {"model_key": "hertz_para",
+                                     "range_type": "relative cp",
+                                     "range_x": [-1e-10, 1e-10]}],
                          ["edit", i, "weight_cp", 2e-7],
                          ["rate", i],
                          ["pre", i, P0]]
@@ -475,11 +478,11 @@ def run(tier):
     rep.add("traces_validated_against_impl", n)
     rep.sample(cases[3])
     rep.sample(cases[-1])
-    plan = {"quick": [("map2x2_two", 4), ("map2x2", 3)],
+    plan = {"quick": [("map2x2_two", 4), ("map2x2", 2)],
             "thorough": [("map2x2_two", 6), ("map2x2", 4)]}[tier]
     for name, depth in plan:
         drv = DRIVERS[name]
-        seen, info = hist.search(drv, rep, depth, merge_check=True)
+        seen, info = hist.search(drv, rep, depth, merge_check=("full" if tier == "thorough" else True))
         hs = sorted((h for h, _ in seen.values()), key=len)
         rep.sample({"driver": name, "history": [drv.ops[i] for i in hs[-1]]})
     rep.set("exhaustive", True)
